@@ -106,6 +106,44 @@ def model_compare(rep, name, pairs, timeout=900):
     return sorted(bad)
 
 
+def spec_compare(rep, name, pairs):
+    """pairs: (case, run of the CPython counterpart, fault-free, to exhaustion). Evaluates the Coq specification
+    (Std/SpecTool.v) on the same inputs and compares with what CPython did. Returns differing indices."""
+    good = []
+    for i, (c, s) in enumerate(pairs):
+        try:
+            good.append((i, G.coq_std_case(c, s)))
+        except ValueError:
+            continue
+    shards = [good[i:i + 400] for i in range(0, len(good), 400)]
+    outs = coq_eval_files(name + "_std", [G.coq_std_file([t for _, t in sh]) for sh in shards])
+    bad = []
+    for sh, (rc, out) in builtins.zip(shards, outs):
+        f = parse_nat_list(out) if rc == 0 else None
+        if f is None:
+            rep.notes["coq_std_eval_error"] = out[-2000:]
+            return None
+        bad.extend(sh[j][0] for j in f)
+    rep.notes["cpython_runs_validated_against_spec"] = rep.notes.get("cpython_runs_validated_against_spec", 0) + len(good)
+    return bad
+
+
+def spec_stage(rep, prop, std_pairs):
+    """CPython ~ specification: a difference means the specification the theorems are about is not the stdlib."""
+    # specs are stated for orderable inputs and finite consumption
+    pairs = [(c, s) for c, s in std_pairs if s is not None and c.plan is None and c.name != "cycle"
+             and not (s["outcome"][0] == "exn" and s["outcome"][1] == ("TypeError",) and c.name in ("sorted", "merge", "nlargest", "nsmallest"))]
+    bad = spec_compare(rep, prop.lower(), pairs)
+    if bad is None:
+        rep.violation("coq-std-eval", {"broken": "evaluation of Std/SpecTool.v failed", "log": rep.notes.get("coq_std_eval_error", "")[-1500:]}, no_input=True)
+        return
+    for i in bad[:3]:
+        c, s = pairs[i]
+        rep.violation(sig(c, "spec-vs-cpython"), {"broken": "Std specification differs from CPython (Std/SpecTool.v std_ok)", "case": encode_case(c),
+                                                 "cpython": {"outcome": repr(s["outcome"][:2]), "log": repr(s["log"])}}, no_input=True)
+    rep.notes["spec_mismatches"] = len(bad)
+
+
 def outcome_class(o):
     return (o[0],) + ((o[1],) if o[0] == "exn" else ())
 
@@ -263,9 +301,10 @@ def check_values(prop, tier, seed, tools):
     rep = Report(prop, tier, seed)
     proofs_ok = proof_stage(rep, prop)
     rng = random.Random(seed)
-    per = 25 if tier == "quick" else 400
+    per = 90 if tier == "quick" else 1200
     cases = load_corpus(prop) + gen_cases(rng, tools, per, tier, mixed=True)
     pairs, fails = [], 0
+    std_pairs = []
     dist = {}
     for c in cases:
         r = run_impl(c)
@@ -274,6 +313,7 @@ def check_values(prop, tier, seed, tools):
         nontriv = builtins.any(len(s) > 1 for s in c.srcs)
         rep.count((c.name, repr(c.params), repr(c.srcs)), nontriv, sample=c.describe() if nontriv else None)
         s = std_run_for(c, r)
+        std_pairs.append((c, s))
         why = oracle_values(c, r, s)
         if why and documented_deviation(c, r, s):
             why = None
@@ -285,6 +325,7 @@ def check_values(prop, tier, seed, tools):
             small = shrink_case(c, lambda cc: oracle_values(cc, run_impl(cc), std_run_for(cc, run_impl(cc))) is not None)
             rep.violation(sig(c, param_sig(c)), {"case": encode_case(small), "why": why, "replay_note": "run_impl vs run_std on this case"})
     rep.notes["input_distribution"] = dist
+    spec_stage(rep, prop, std_pairs)
     finish_with_model(rep, prop, pairs, fails, proofs_ok)
     return rep.finish()
 
@@ -327,15 +368,17 @@ def check_C05(tier, seed):
     rep = Report("C05", tier, seed)
     proofs_ok = proof_stage(rep, "C05")
     rng = random.Random(seed)
-    per = 14 if tier == "quick" else 200
+    per = 40 if tier == "quick" else 500
     tools = [t for t in ITER_TOOLS] + ["all", "any"]
     cases = load_corpus("C05") + gen_cases(rng, tools, per, tier)
     pairs, fails = [], 0
+    std_pairs = []
     for c in cases:
         r0 = run_impl(c)
         pairs.append((c, r0))
         rep.count((c.name, repr(c.params), repr(c.srcs)), builtins.any(len(s) > 1 for s in c.srcs), sample=c.describe())
         s0 = std_run_for(c, r0)
+        std_pairs.append((c, s0))
         bad = None
         if s0 is not None and not same_log(no_close(r0["log"]), s0["log"]):
             bad = ("full", no_close(r0["log"]), s0["log"])
@@ -353,6 +396,7 @@ def check_C05(tier, seed):
         if bad:
             fails += 1
             rep.violation(sig(c, trace_sig(c, bad)), {"case": encode_case(c), "at": bad[0], "impl_log": repr(bad[1]), "std_log": repr(bad[2])})
+    spec_stage(rep, "C05", std_pairs)
     finish_with_model(rep, "C05", pairs, fails, proofs_ok)
     return rep.finish()
 
@@ -373,7 +417,7 @@ def check_faults(prop, tier, seed):
     rep = Report(prop, tier, seed)
     proofs_ok = proof_stage(rep, prop)
     rng = random.Random(seed)
-    per = {"C04": 6, "C06": 6, "C18": 5}[prop] if tier == "quick" else 60
+    per = {"C04": 18, "C06": 18, "C18": 16}[prop] if tier == "quick" else 150
     tools = ITER_TOOLS + AGG_TOOLS
     cases = load_corpus(prop) + gen_cases(rng, tools, per, tier)
     pairs, fails = [], 0
